@@ -8,7 +8,7 @@ ID = "C12"
 THEOREMS = ["C12_l2l4_replies_unanswered", "C12_dns_responses_unanswered", "C12_dns_response_not_dns",
             "C12_stun_nonrequests_unanswered", "C12_own_dns_reply_typed", "C12_own_stun_reply_typed",
             "C12_own_rpc_reply_typed",
-            "C12frame.C12x_frame", "C12frame.C12x_tcp_first_state", "C12frame.C12x_tcp_first_history", "C12frame.C12_spec_monitor_refuted", "C12frame.C12_rpc_udp_replies_unanswered", "C12frame.C12_rpc_tcp_replies_unanswered", "C12frame.C12_rpc_stream_noncall_unanswered", "C12frame.C12_smb1_replies_unanswered", "C12frame.C12_smb2_replies_unanswered", "C12frame.C12id_udp_other_protocol", "C12frame.C12id_tcp_first_other_protocol", "C12frame.C12id_frame_udp", "C12frame.C12id_frame_tcp_first_history", "C12frame.C12_chain_no_repeat_partial", "C12frame.C12_silent_examples", "C12frame.C12_answered_by_another_protocol", "C12frame.C12_chain_of_length_two", "Env.the_env_ok"]
+            "C12frame.C12x_frame", "C12frame.C12x_tcp_first_state", "C12frame.C12x_tcp_first_history", "C12frame.C12_spec_monitor_refuted", "C12frame.C12_rpc_udp_replies_unanswered", "C12frame.C12_rpc_tcp_replies_unanswered", "C12frame.C12_rpc_stream_noncall_unanswered", "C12frame.C12_smb1_replies_unanswered", "C12frame.C12_smb2_replies_unanswered", "C12frame.C12id_udp_other_protocol", "C12frame.C12id_tcp_first_other_protocol", "C12frame.C12id_frame_udp", "C12frame.C12id_frame_tcp_first_history", "C12frame.C12_chain_no_repeat_partial", "C12frame.C12_silent_examples", "C12frame.C12_answered_by_another_protocol", "C12frame.C12_chain_of_length_two", "C12chain.C12_chain_bound_current", "C12chain.C12_chain_bound_dns_current", "C12chain.C12_chain_bound_stun_current", "C12chain.C12_chain_bound_rpc_current", "C12chain.C12_chain_bound_not_ssh_ghost", "C12chain.C12_reply_typed_never_http_ssh_ghost", "C12chain.C12_chain_second_hop", "C12chain.C12_chain_third_hop_silent", "C12chain.C12_dns_response_unanswered", "C12chain.C12_rpc_record_reply_unanswered_udp", "C12chain.C12_http_template_unanswered", "C12chain.C12_stun_response_to_fallback", "C12chain.C12_rpc_reply_to_fallback", "C12chain.C12_smb1_reply_unanswered_udp", "C12chain.C12_smb2_reply_unanswered_udp", "C12chain.C12_chain_frames", "C12chain.C12_chain_frames_monitor", "C12chain.C12_chain_payload_monitor", "C12chain.C12_chain_stmt_needs_octets", "C12chain.C12_chain_junk_context_observed", "C12chain.C12_chain_nonvacuous", "C12chain.C12_tcp_first_smb1_reply_silent", "C12chain.C12_tcp_first_smb2_reply", "C12chain.C12_tcp_first_rpc_reply", "C12chain.C12_tcp_other_protocol_observed", "C12chain.C12_shape_verdicts_sound", "Env.the_env_ok"]
 MONITORS = ["C12", "C12tcp", "C12idudp", "C12idtcp"]
 RULE = ("reply-typed messages of every protocol: ARP ops != 1, ICMP/ICMPv6 echo replies and neighbour advertisements, TCP "
         "SYN|ACK / RST flag words, DNS messages with QR=1 (all flag words on a grid, 0..4 questions/answers), STUN "
@@ -20,8 +20,9 @@ RULE = ("reply-typed messages of every protocol: ARP ops != 1, ICMP/ICMPv6 echo 
         "replies; model and implementation are compared on every hop. non-trivial = reply-typed message")
 TRUSTED = ["Coq 8.16.1 kernel + vm_compute", "extraction (ExtrOcamlBasic) + ocaml/model_run.ml", "harness/*.py (bounce, generators)",
            "Rust hook verif_driver.rs", "pnet accessor semantics as modelled"]
-ASSUMPTIONS = ["the reflection-chain clause (at most two replies in total) is NOT proved; it is monitored on the "
-               "implementation for the generated reply-typed messages and for the responder's own replies",
+ASSUMPTIONS = ["the reflection-chain clause (at most two replies in total) is proved for UDP on the current tables "
+               "(C12chain.C12_chain_bound_current, C12_chain_frames) and additionally monitored on the implementation for "
+               "the generated reply-typed messages and for the responder's own replies",
                "SMB reply flag / RPC reply message type: proved by C17 / C10 (identification), monitored here"]
 
 CFG = Cfg(key=(31, 32))
@@ -43,6 +44,13 @@ def corpus():
                  + gens.handshake(CFG.key, gens.PEER4, gens.SELF4, 40003, 111,
                                   [bytes.fromhex("80000028deadbeef0000000000000002000186a00000000200000003"),
                                    bytes.fromhex("00000000000000000000000100000000")]), "corpus:monitor-overdemand")
+    # the two families of reflection chains of length exactly two (C12_chain_nonvacuous): an RPC-reply-typed datagram
+    # that is a STUN binding request (STUN response, then a bare DNS header from the fallback, then silence), and a
+    # STUN-typed datagram that is an RPC/UDP call (RPC reply, bare DNS header, silence)
+    a = bytes.fromhex("000100080000000100000000026162000001000100030004" + "00000000")
+    b = bytes.fromhex("0110000000000000000000020001 86a00000000200000000".replace(" ", "")) + bytes(16)
+    yield Script(CFG, [net.frame_udp(gens.PEER4, gens.SELF4, 40010, 3478, a), net.frame_udp(gens.PEER4, gens.SELF4, 40011, 111, b)],
+                 "corpus:chains-of-two")
 
 
 def reply_typed_frames(rng, tier):
@@ -202,7 +210,7 @@ def nontrivial(script):
 def project(script, i, o):
     if o.reply is None:
         return (o.kind, None)
-    return (o.kind,) + tuple(runner.DATE_RE.sub(b"\nDate: X\n", x) if isinstance(x, (bytes, bytearray)) else x
+    return (o.kind,) + tuple(runner.mask_app(x) if isinstance(x, (bytes, bytearray)) else x
                              for x in net.norm_frame(o.reply))
 
 
